@@ -5,7 +5,7 @@
 # prints which ones raise a VIOLATION, and always restores /repo afterwards.
 PATCH="$1"; shift
 TIER="${1:-quick}"; [ $# -gt 0 ] && shift
-IDS="$*"; [ -n "$IDS" ] || IDS="C03 C04 C05 C06 C09 C10 C11 C12 C16 C17 C18"
+IDS="$*"; [ -n "$IDS" ] || IDS="C03 C04 C05 C06 C09 C10 C11 C12 C16 C17 C18 C20"
 ROOT="$(cd "$(dirname "$0")/.." && pwd)"
 cd /repo || exit 2
 if [ -n "$(git status --porcelain --untracked-files=no)" ]; then echo "try_mutant: /repo is not clean" >&2; exit 2; fi
